@@ -65,6 +65,8 @@ COND = (f"""(define (domain c1)
   :effect (and (q ?x ?y) (when (not (r)) (m ?y))))
 (:action mark :parameters (?o - object) :precondition (and (not (m ?o))) :effect (and (m ?o) (p k)))
 (:action bump :parameters () :precondition (and) :effect (and (increase (aux) (+ (cnt) 1))))
+(:action chk :parameters (?z - t1)
+  :precondition (and (forall (?z - t2) (or (m ?z) (not (p ?z))))) :effect (and (m ?z)))
 (:action gate :parameters ()
   :precondition (and (or (forall (?z - t3) (and (m ?z))) (r)))
   :effect (and (p k))))
